@@ -607,17 +607,23 @@ def parse_equation(equation: str) -> List[Symbol]:
         # them to survive `str.format()` below
         return text.replace('{', '{{').replace('}', '}}')
 
-    template = ''
-    position = 0
-    for match in term_re.finditer(equation):
-        # Skip Python keywords, which yield unnamed groups
-        if not any(match.groups()):
-            continue
+    def make_template(expression: str) -> str:
+        template = ''
+        position = 0
+        for match in term_re.finditer(expression):
+            # Skip Python keywords, which yield unnamed groups
+            if not any(match.groups()):
+                continue
 
-        start, end = match.span()
-        template += escape_braces(equation[position:start]) + '{}'
-        position = end
-    template += escape_braces(equation[position:])
+            start, end = match.span()
+            template += escape_braces(expression[position:start]) + '{}'
+            position = end
+        return template + escape_braces(expression[position:])
+
+    # Match the terms on either side of the (first) equals sign separately,
+    # exactly as in `parse_equation_terms()`, to keep the replacement fields
+    # in step with `terms`
+    template = '='.join(map(make_template, equation.split('=', maxsplit=1)))
 
     # fmt: off
     template = re.sub(r'\s+',   ' ', template)  # Remove repeated whitespace
